@@ -6,6 +6,7 @@ import (
 	"go/token"
 	"go/types"
 	"strings"
+	"time"
 )
 
 // foreign models calls into the standard library and third-party packages (trusted primitives).
@@ -88,6 +89,41 @@ func (in *Interp) foreign(fn *types.Func, recv Value, x *ast.CallExpr) []Value {
 			sum = in.D.AddSub(token.ADD, sum, in.D.Resize(in.D.Bool(b), 64, true))
 		}
 		return []Value{sum}
+	case "time.Date":
+		// constant calendar arguments (the location argument is taken to be UTC, which is what the tables use)
+		var k [7]int
+		for i := 0; i < 7; i++ {
+			k[i] = in.constInt(x.Args[i], "time.Date argument")
+		}
+		if sel, ok := unparen(x.Args[7]).(*ast.SelectorExpr); !ok || sel.Sel.Name != "UTC" {
+			in.fail(x, "time.Date with a location other than time.UTC")
+		}
+		tm := time.Date(k[0], time.Month(k[1]), k[2], k[3], k[4], k[5], k[6], time.UTC)
+		return []Value{in.TimeValue(in.D.Const(tm.UnixNano(), 64, true), sig.Results().At(0).Type())}
+	case "(time.Time).Before", "(time.Time).After", "(time.Time).Equal":
+		a, ok1 := TimeNS(recv)
+		b, ok2 := TimeNS(in.expr(x.Args[0]))
+		if !ok1 || !ok2 {
+			in.fail(x, "time comparison on %T", recv)
+		}
+		op := map[string]token.Token{"(time.Time).Before": token.LSS, "(time.Time).After": token.GTR, "(time.Time).Equal": token.EQL}[name]
+		return []Value{in.D.Bool(in.D.Cmp(op, a, b))}
+	case "(time.Time).Add":
+		a, ok1 := TimeNS(recv)
+		dv, ok2 := in.expr(x.Args[0]).(*Bits)
+		if !ok1 || !ok2 {
+			in.fail(x, "time.Add on %T", recv)
+		}
+		return []Value{in.TimeValue(in.D.AddSub(token.ADD, a, in.D.Resize(dv, 64, true)), sig.Results().At(0).Type())}
+	case "(time.Time).Sub":
+		a, ok1 := TimeNS(recv)
+		b, ok2 := TimeNS(in.expr(x.Args[0]))
+		if !ok1 || !ok2 {
+			in.fail(x, "time.Sub on %T", recv)
+		}
+		return []Value{in.D.AddSub(token.SUB, a, b)}
+	case "(time.Time).UTC":
+		return []Value{recv}
 	case "crypto/subtle.ConstantTimeCompare":
 		args := in.args(x, sig)
 		a, ok1 := args[0].(*Slice)
